@@ -184,4 +184,31 @@ Section Session2.
     - intros i Hi. unfold getop. replace (s_ops s2') with (s_ops s2) by congruence. apply U6.
       eapply getop_none_frame; [apply F|]. apply Hs1s. exact Hi.
   Qed.
+
+  Lemma apply_session_spec (s : state) sp :
+    WFS s -> W9 cfg s -> s_st s = Connected ->
+    s_hq s = [] -> s_ppub s = [] -> s_pnon s = [] -> s_tmo s = [] -> s_pwco s = [] ->
+    (forall i, s_cur s = Some i -> getop s i = None) ->
+    let r := apply_session cfg s sp in
+    (forall site, r_out r <> Panic site) /\ WFS (r_s r) /\ W9 cfg (r_s r) /\ s_st (r_s r) = Connected /\
+    s_settings (r_s r) = s_settings s /\ s_cur (r_s r) = s_cur s /\ s_enc (r_s r) = s_enc s /\
+    (forall i, s_cur s = Some i -> getop (r_s r) i = None).
+  Proof.
+    intros HW H9 Hst E1 E2 E3 E4 E5 Hcur. rewrite apply_session_unfold. cbv zeta.
+    assert (Hmid : (forall site, r_out (sess_head s sp) <> Panic site) /\
+                   mid_spec s (fold_left unbind (s_uq (r_s (sess_head s sp))) (r_s (sess_head s sp)))).
+    { destruct sp.
+      - cbn [sess_head pure r_s r_out]. split; [intros; discriminate|]. apply sess_mid_present; assumption.
+      - apply sess_mid_absent; assumption. }
+    destruct Hmid as (N1 & M). rewrite (nopanic_is_panic _ N1).
+    set (r1 := sess_head s sp) in *. set (s2 := fold_left unbind (s_uq (r_s r1)) (r_s r1)) in *. clearbody s2.
+    destruct M as [M1 M2 M3 M4 M5 M6 M7 M8 M9 M10 M11 M12].
+    destruct (sess_tail_spec s2 (r_done r1) (r_out r1) M1 M3 M4 M5 M6 M7) as (T1 & T2 & T3 & T4).
+    set (r := sess_tail s2 (r_done r1) (r_out r1)) in *. clearbody r.
+    unfold sess_keep in T3. tuple_eqs T3.
+    splits; try congruence; auto.
+    - unfold W9, ss_ok in *. rewrite T4. replace (s_st (r_s r)) with (s_st s2) by congruence.
+      replace (s_ss_count (r_s r)) with (s_ss_count s2) by congruence. exact M2.
+    - intros i Hi. unfold getop. rewrite T4. apply M12. apply Hcur. exact Hi.
+  Qed.
 End Session2.
